@@ -6,6 +6,7 @@ package keyvalue
 
 import (
 	"fmt"
+	"strings"
 
 	"github.com/janelia-flyem/dvid/datastore"
 	"github.com/janelia-flyem/dvid/storage"
@@ -36,6 +37,11 @@ func (d *Data) DescribeTKeyClass(tkc storage.TKeyClass) string {
 
 // NewTKey returns the "key" key component.
 func NewTKey(key string) (storage.TKey, error) {
+	// The stored form ends with a zero byte and versions of a key are found by byte prefix, so a key
+	// holding a zero byte would make a shorter key a prefix of it.
+	if strings.IndexByte(key, 0) >= 0 {
+		return nil, fmt.Errorf("key %q contains a zero byte", key)
+	}
 	return storage.NewTKey(keyStandard, append([]byte(key), 0)), nil
 }
 
